@@ -161,7 +161,16 @@ class Fixtures:
         self.data["g0x"] = self.data["g0"] + b"\x00\x01\x02trailing"
         self.data["g01"] = self.data["g0"] + self.data["g1"]
         self.data["gt1"] = self.data["gt"] + self.data["g1"]
+        # blobs in which no GGUF can be decoded: a GGUF cut inside its header (after the magic, the version, the counts,
+        # a complete key/value) makes ggml.Decode answer io.EOF; something that is no GGUF at all
+        self.data["c4"] = self.data["g0"][:4]
+        self.data["c8"] = self.data["g0"][:8]
+        self.data["c24"] = self.data["g1"][:24]
+        self.data["ckv"] = self.data["g1"][:len(self.data["g0"])]   # g1 after its first key/value (as long as all of g0)
+        self.data["gbad"] = b"this is not a GGUF file, whatever its name says"
+        self.empty = {"c4", "c8", "c24", "ckv", "gbad"}
         self.parts = {k: [None] for k in kvs}          # None: the GGUF spans the whole blob
+        self.parts.update({k: [] for k in self.empty})
         self.parts.update({"g0x": ["g0"], "g01": ["g0", "g1"], "gt1": ["gt", "g1"]})
         self.fail = {"g0x"}
         # probe: what does create derive from each file (media types, detected layers)?
@@ -178,6 +187,10 @@ class Fixtures:
         for i, k in enumerate(self.data):
             st = obs[0]["obs"][2 * i + 1]["state"]
             man = [m for m in st["manifests"] if m["path"].split("/")[2] == "probe-" + k]
+            if k in self.empty:
+                # (whether the create is rejected is what the check is about: no expectation here)
+                self.probe[k] = {"mts": [], "det": []}
+                continue
             if k in self.fail:
                 if man:
                     raise RuntimeError("fixture probe: create from %s was expected to fail" % k)
@@ -436,6 +449,14 @@ CORPUS = [
         {"op": "create", "name": "a", "files": {"m.gguf": "sha256:" + sha(fx.data["g0"])}, "_fx": "g0"},
         {"op": "create", "name": "c", "files": {"m.gguf": "sha256-" + sha(fx.data["g0"])}, "_fx": "g0"},
         {"op": "delete", "name": "a"},
+        {"op": "startup"}]),
+    # a GGUF cut after its magic: ggml.Decode answers io.EOF, ggufLayers found no layer at all
+    ("create-from-truncated-gguf", lambda fx: [
+        {"op": "blob", "digest": "sha256:" + sha(fx.data["c4"]), "data": fx.data["c4"].hex(), "_fx": "c4"},
+        {"op": "create", "name": "cut", "files": {"model.gguf": "sha256:" + sha(fx.data["c4"])}, "_fx": "c4", "system": "You are S1."},
+        {"op": "create", "name": "cut2", "from": "cut"},
+        {"op": "blob", "digest": "sha256:" + sha(fx.data["ckv"]), "data": fx.data["ckv"].hex(), "_fx": "ckv"},
+        {"op": "create", "name": "cut3", "files": {"model.gguf": "sha256:" + sha(fx.data["ckv"])}, "_fx": "ckv"},
         {"op": "startup"}]),
     # create FROM a model that does not exist
     ("from-missing", lambda fx: [
